@@ -203,7 +203,9 @@ def unit_copy(ndim, which):
             wr = [e for e in s.events if e.kind == "w" and getattr(e.arr, "cx_part", "re") == "re"]
             rd = [e for e in s.events if e.kind == "r" and nm(e) in ("user", buf) and getattr(e.arr, "cx_part", "re") == "re"]
             from contracts import outcover
-            if wr and any(outcover._is_tid(q[0]) for e_ in wr for q in e_.qvars):
+            team_dep = any(outcover._is_team_size(u) for e_ in wr for t_ in [tm.lift(e_.idx)] + [tm.lift(g_) for g_ in e_.guards] + [tm.lift(x_) for q in e_.qvars for x_ in q[1:3]]
+                           for u in tm.subterms(t_).values())
+            if wr and (any(outcover._is_tid(q[0]) for e_ in wr for q in e_.qvars) or team_dep or (len(wr) != 1 and not padded)):
                 # the copy is chunked by thread id (code run by every thread of a region, e.g. one memcpy per thread): no single copy loop to match —
                 # dense identity copy + coverage + bounds + disjointness, per team size
                 if padded:
@@ -232,7 +234,8 @@ def unit_copy(ndim, which):
                 j = I("j_target")
                 outcover.record(ctx, "%s every element of the advertised array is copied, whatever the team size" % tag, wr, [(j, 0, nuser)], j, H0 + assumes, fq)
                 outcover.team_bounds(ctx, "%s every thread's copy stays inside both buffers" % tag, wr, nuser, H0 + assumes, fq)
-                outcover.team_disjoint(ctx, "%s different threads copy different elements" % tag, wr, H0 + assumes, fq)
+                if any(outcover._is_tid(q[0]) for e_ in wr for q in e_.qvars):
+                    outcover.team_disjoint(ctx, "%s different threads copy different elements" % tag, wr, H0 + assumes, fq)
                 continue
             ctx.holds("%s one copy loop" % tag, len(wr) == 1 and wr[0].op == "=", "%d writes" % len(wr), fq)
             if len(wr) != 1:
